@@ -322,9 +322,24 @@ def main(argv):
             bmeta[cid] = (0, nt, ops, seed, [0, 3][i % 2])
     chk.log("%d programs x %d schedules, %d batch sequences, %d regression cases" % (len(progs), len(scheds), len(blines),
                                                                                       len(rlines)))
-    impl_out = chk.run_cases(impl, lines + blines, timeout=900) if impl else {}
-    if impl and rlines:
-        impl_out.update(chk.run_cases(impl, rlines, timeout=40, jobs=4))
+    impl_out = {}
+    if impl:
+        # canary first: the fixed boundary programs under 3 schedules + the regression cases.  If calls already hang or
+        # crash there (each hang costs a full step budget of the scheduler) only a sample of the bulk is run.
+        nfixed = len(FIXED)
+        canary = [l for l in lines if int(l.split()[0][1:].split(".")[0]) < nfixed and int(l.split()[0].split(".")[1]) < 3] \
+            if not chk.replay else []
+        cset = set(canary)
+        rest = [l for l in lines if l not in cset]
+        if canary:
+            impl_out.update(chk.run_cases(impl, canary, timeout=300))
+        if rlines:
+            impl_out.update(chk.run_cases(impl, rlines, timeout=40, jobs=4))
+        bad = sum(1 for l in impl_out.values() if l.startswith("DSCHED-STUCK") or l.startswith("CRASH"))
+        if bad >= 3:
+            chk.log("%d hangs/crashes among %d canary cases: running only a sample of the remaining cases" % (bad, len(impl_out)))
+            rest = rest[::25]
+        impl_out.update(chk.run_cases(impl, rest + blines, timeout=900))
 
     # model: outcome sets for the small programs, exact lines for the batch sequences
     model_sets, model_b = {}, {}
